@@ -114,6 +114,9 @@ def parseUTy (fmt : Fmt) : Nat → String → Option UTy
       ((splitTop inner 0 []).mapM fun p => parseUTy fmt f (String.ofList p)).map .union
     else if d.startsWith "idref:" then
       (parseIdTy d).map fun t => .ext (idrefPlug t.ctx t.bases (t.pm fmt) t.pmJson)
+    else if d.startsWith "lref(" && d.endsWith ")" then
+      -- leafref (require-instance false) to a leaf of the member type inside the parentheses
+      (parseMTy (String.ofList ((d.toList.drop 5).dropLast))).map fun m => .ext (lrefPlug m.plug)
     else (parseMTy d).map .mem
 
 /-! ### ops -/
@@ -144,7 +147,7 @@ def handleUnion (ms : List Plug) (op : String) (args : List String) : String :=
       match storeU ms Generated.LYD_HINT_DATA s1, storeU ms Generated.LYD_HINT_DATA s2 with
       | .error _, _ => "err Reject1"
       | .ok _, .error _ => "err Reject2"
-      | .ok a, .ok b => cmpFields (cmpEqU ms a b) (sortU ms a b) (canonU ms a == canonU ms b)
+      | .ok a, .ok b => cmpFields (cmpEqU ms a b) (sortUV ms a b) (canonU ms a == canonU ms b)
     | _, _ => "err BadArg"
   | "lybrt", [_, x] =>
     match Hex.dec x with
@@ -287,6 +290,10 @@ def handle (op : String) (args : List String) : String :=
         | _, _ => .json
       match parseUTy fmt (d.length + 1) d with
       | some u => handleUnion u.flatten op args
+      | none => "err BadArg"
+    else if d.startsWith "lref(" && d.endsWith ")" then
+      match parseMTy (String.ofList ((d.toList.drop 5).dropLast)) with
+      | some m => handleMember m op args
       | none => "err BadArg"
     else if d.startsWith "pstr:" then
       match parseMTy d with
